@@ -14,6 +14,8 @@ prefixes of each other and multi-byte names) in any valid insertion order (`PreS
 duplicate, every parent declared before its children), and over all per-module stage counts.
 -/
 import Desverif.Proofs.ModTreeLookups
+import Desverif.Proofs.ModTreeScript
+import Desverif.Proofs.ModTreeTeardownBuilt
 import Desverif.Proofs.ObjPathGate
 import Desverif.Proofs.ModRunOrder
 namespace C12
@@ -156,6 +158,73 @@ theorem valid_node_accepted (D : List SDecl) (p : SDecl)
       b'.mods.map view = (preorder (D ++ [p])).map dview :=
   node_accept D p _ hn hv
     (buildAll_ok D ((valid_snoc D p).mp hv).1 (fun d hd => hn d (by simp [hd]))).2
+
+/-! ## arbitrary builder scripts (accepted and rejected calls interleaved) -/
+
+/-- **Every builder script refines the contract.**  For any sequence of `sim.node(path, module)`
+    calls with well-formed names — duplicates, orphans and children declared before their parent
+    included, in any interleaving — every answer of the builder (accepted / "node allready exists" /
+    "parent … does not exist") is the answer of `PreSpec.declare`, the accepted declarations form a
+    valid declaration sequence, and the builder ends in exactly the state built from the accepted
+    declarations alone.  Hence every theorem about `buildAll D` holds for the final state of every
+    script, with `D` the accepted declarations. -/
+theorem script_refines_contract (script : List SDecl) (hn : NamesValid script) :
+    (runScript {} script).2.map ansOf = (declareAll [] script).2.map some ∧
+    (runScript {} script).1 = (buildAll (declareAll [] script).1).1 ∧
+    Valid (declareAll [] script).1 ∧ NamesValid (declareAll [] script).1 :=
+  script_refines script [] (by decide) (fun _ h => by simp at h) hn
+
+/-- **Rejected declarations leave the tree unchanged**: after any accepted prefix `D`, a call that
+    the contract rejects (duplicate path or missing parent) is rejected by the builder with the
+    corresponding panic and the builder state (vector, parent pointers, children maps, id counter)
+    is exactly what it was. -/
+theorem rejected_declaration_changes_nothing (D : List SDecl) (d : SDecl) (hv : Valid D)
+    (hn : NamesValid D) (hd : AllValid d.segs) (hrej : (declare D d).1 ≠ .ok) :
+    ansOf (node (buildAll D).1 (render d.segs) d.stages).2 = some (declare D d).1 ∧
+    (node (buildAll D).1 (render d.segs) d.stages).1 = (buildAll D).1 ∧ (declare D d).2 = D := by
+  obtain ⟨h1, _, _, _, h5⟩ := script_step D d hv hn hd
+  exact ⟨h1, (h5 hrej).2, (h5 hrej).1⟩
+
+/-- **Path ↔ module is a bijection**: no two modules share a path, no two declarations share a
+    path value, every module sits at a declared path, every declared path has its module, and there
+    are exactly as many modules as declarations. -/
+theorem path_node_bijection (D : List SDecl) (hv : Valid D) (hn : NamesValid D) :
+    ((buildAll D).1.mods.map (·.path)).Nodup ∧ (buildAll D).1.mods.length = D.length ∧
+    (∀ m ∈ (buildAll D).1.mods, ∃ d ∈ D, m.path = reprOf d.segs) ∧
+    (∀ d ∈ D, ∃ m ∈ (buildAll D).1.mods, m.path = reprOf d.segs) ∧
+    (∀ d ∈ D, ∀ d' ∈ D, reprOf d.segs = reprOf d'.segs → d = d') := by
+  have hb := (buildAll_ok D hv hn).2
+  refine ⟨binv_paths_nodup hv hn hb, ?_, ?_, ?_, ?_⟩
+  · have := congrArg List.length hb
+    simp only [List.length_map] at this
+    rw [this]
+    exact (preorder_perm D hv).length_eq
+  · intro m hm
+    obtain ⟨d, hd, h, _⟩ := binv_mem_decl hv hb hm
+    exact ⟨d, hd, h⟩
+  · intro d hd
+    obtain ⟨m, hm, h, _⟩ := binv_decl_mem hv hb hd
+    exact ⟨m, hm, h⟩
+  · intro d hd d' hd' e
+    exact eq_of_map_eq (·.segs) D (valid_good D hv).nodup d hd d' hd'
+      (reprOf_injective _ _ (hn d hd) (hn d' hd') e)
+
+/-! ## tear-down order -/
+
+/-- **No module precedes its parent in the vector**, hence in every start stage, in the
+    `at_sim_end` sequence and in the drop sequence a parent comes before its children. -/
+theorem parent_before_children (D : List SDecl) (hv : Valid D) (hn : NamesValid D) :
+    (buildAll D).1.mods.Pairwise (fun x y => x.parent ≠ some y.id) :=
+  (tinv_of_linv hv hn (buildAll_linv D hv hn)).pw
+
+/-- **Drop order.**  When the simulation is dropped, the `Vec<ModuleRef>` is dropped front to back;
+    a module's state goes when its last `ModuleRef` clone goes (vector entry + entry in the parent's
+    children map), and dropping a module's context releases its children map.  For every built
+    simulation no drop cascades: the module states are dropped in vector order (depth-first
+    pre-order), each parent before its children. -/
+theorem teardown_in_vector_order (D : List SDecl) (hv : Valid D) (hn : NamesValid D) :
+    teardown (buildAll D).1 = (buildAll D).1.mods.map (·.id) :=
+  teardown_built D hv hn
 
 /-! ## lookups: parent pointers and children maps (`ModuleContext::standalone` / `child_of`) -/
 
@@ -359,5 +428,16 @@ example : ((run Rt.fesES [] 10 (fun m st => if m.path.data = [98] then [⟨false
     (Rt.build FES.init 0 .none) (buildAll exD).1.mods).2.map
       (fun c => match c with | .start _ _ => 0 | .kernel (.handled _ _) => 1 | .kernel _ => 2 | .stop _ => 3))
     = [0, 0, 0, 2, 0, 0, 2, 0, 0, 1, 1, 3, 3, 3, 3, 3] := by decide
+
+/-- a script with rejected calls interleaved: `a`, `a` again (dup), `c.x` (no `c`), `a.al`, `a.al.b`,
+    `b.q` (no `b`), `a.al` again (dup) -/
+def exScript : List SDecl :=
+  [⟨[[97]], 1⟩, ⟨[[97]], 2⟩, ⟨[[99], [120]], 1⟩, ⟨[[97], [97, 108]], 0⟩, ⟨[[97], [97, 108], [98]], 3⟩,
+   ⟨[[98], [113]], 1⟩, ⟨[[97], [97, 108]], 1⟩]
+example : NamesValid exScript ∧ (declareAll [] exScript).2 = [.ok, .dup, .noParent, .ok, .ok, .noParent, .dup]
+    ∧ (runScript {} exScript).2 = [none, some .dup, some .noParent, none, none, some .noParent, some .dup]
+    ∧ (runScript {} exScript).1.mods.map (·.path.data) = [[97], [97, 46, 97, 108], [97, 46, 97, 108, 46, 98]] := by
+  decide
+example : teardown (buildAll exD).1 = [0, 2, 4, 1, 3] := by decide
 
 end C12
